@@ -356,6 +356,10 @@ func (s *controlledSelector) shouldSwitchSelectedPair(pair, selectedPair *Candid
 		s.log.Debugf("Accepting renomination to pair %s (nomination value: %d)", pair, *nominationValue)
 
 		return true
+	case s.lastNomination != nil:
+		// Renomination is in use: a plain USE-CANDIDATE carries no order and
+		// must not override the latest valued nomination.
+		return false
 	}
 
 	// Standard ICE nomination without renomination - apply priority rules
@@ -447,7 +451,7 @@ func (s *controlledSelector) HandleSuccessResponse(
 		}
 	} else if pair.nominateOnBindingSuccess {
 		if selectedPair := s.agent.getSelectedPair(); selectedPair == nil ||
-			(selectedPair != pair &&
+			(selectedPair != pair && s.lastNomination == nil &&
 				(!s.agent.needsToCheckPriorityOnNominated() || selectedPair.priority() <= pair.priority())) {
 			s.agent.setSelectedPair(pair)
 		} else if selectedPair != pair {
